@@ -276,6 +276,8 @@ theorem quantity_to_time_bound_binary32 (q : Quantity Q32) (hq : q.unit = ⟨0, 
     have h3 : (2:ℚ)^(-150:ℤ) ≤ 1 / 4 :=
       le_trans ((zpow_le_iff (-150) (-126)).2 (by norm_num)) h2
     have h4 := abs_sub_abs_le_abs_sub (rne32 P) P
+    generalize (2:ℚ)^(-126:ℤ) = a at *
+    generalize (2:ℚ)^(-150:ℤ) = b at *
     have h5 : |rne32 P| < 1 := by linarith
     rw [trunc_eq_zero _ h5]
     have h6 : (0:ℚ) ≤ |P| / 2 ^ 24 := by positivity
@@ -316,5 +318,58 @@ theorem roundtrip_finite_binary32 (t : Int) (ht : inI64 t) :
     rw [abs_mul_e9]; norm_num at h2; nlinarith
   have := abs_rne32_le_of_abs_le _ _ rne32_pow64 h3
   norm_num; exact this
+
+/-! ### 6: non-vacuity, concrete numbers (evaluated by the kernel on the model itself: `decide +kernel`, no axioms) -/
+
+/-- 1.5 s: `Time(1_500_000_000)` converts to exactly `3/2` and back to itself. -/
+example : ((Quantity.ofTime true 1500000000 : Quantity Q32).value).val = 3 / 2 := by
+  rw [time_to_quantity_value_binary32]; decide +kernel
+example : Time.tryOfQuantity true (Quantity.ofTime true 1500000000 : Quantity Q32) = some 1500000000 := by
+  decide +kernel
+/-- rounding really happens: `(10^9 + 1) ns ↦ 1 s` exactly, and back to `10^9 ns` (off by 1 ≤ |t|/2^22 + 1). -/
+example : rne32 1000000001 = 1000000000 := by decide +kernel
+example : ((Quantity.ofTime true 1000000001 : Quantity Q32).value).val = 1 := by
+  rw [time_to_quantity_value_binary32]; decide +kernel
+example : Time.tryOfQuantity true (Quantity.ofTime true 1000000001 : Quantity Q32) = some 1000000000 := by
+  decide +kernel
+example : |((1000000000 : ℤ) : ℚ) - (1000000001 : ℤ)| ≤ |((1000000001 : ℤ) : ℚ)| / 2 ^ 22 + 1 := by norm_num
+/-- a large time: `2^62 + 12345 ↦ 2^62` (off by 12345 ns, the bound allows `≈ 1.1·10^12`) -/
+example : Time.tryOfQuantity true (Quantity.ofTime true (2 ^ 62 + 12345) : Quantity Q32)
+    = some 4611686018427387904 := by
+  rw [roundtrip_value_binary32]
+  have : rne32 (rne32 (rne32 ((2 ^ 62 + 12345 : ℤ) : ℚ) / 1000000000) * 1000000000) = 4611686018427387904 := by
+    decide +kernel
+  rw [this]; norm_num [trunc, satI64]
+example : |((4611686018427387904 : ℤ) : ℚ) - (2 ^ 62 + 12345 : ℤ)| ≤ |((2 ^ 62 + 12345 : ℤ) : ℚ)| / 2 ^ 22 + 1 := by
+  norm_num
+/-- `i64::MAX`: the three roundings give `2^63`, and the final cast saturates back to `i64::MAX` -/
+example : rne32 (rne32 (rne32 ((9223372036854775807 : ℤ) : ℚ) / 1000000000) * 1000000000) = 2 ^ 63 := by
+  decide +kernel
+example : Time.tryOfQuantity true (Quantity.ofTime true 9223372036854775807 : Quantity Q32)
+    = some 9223372036854775807 := by decide +kernel
+/-- the smallest nonzero time, 1 ns, survives the round trip -/
+example : Time.tryOfQuantity true (Quantity.ofTime true 1 : Quantity Q32) = some 1 := by decide +kernel
+/-- hypotheses are satisfiable by non-trivial data -/
+example : inI64 1500000000 ∧ inI64 (2 ^ 62 + 12345) ∧ inI64 9223372036854775807 ∧ (1000000001 : ℤ) ≤ 1500000000 := by
+  decide
+/-- `quantity_to_time_bound_binary32` on a product in the subnormal range (`2^-170 s · 10^9 ≈ 2^-140 < 2^-126`,\nrounded to the subnormal `477 · 2^-149`): the result is 0 -/
+example : Time.tryOfQuantity true (⟨⟨1 / 2 ^ 170⟩, ⟨0, 1⟩⟩ : Quantity Q32) = some 0 := by decide +kernel
+example : (⟨⟨1 / 2 ^ 170⟩, ⟨0, 1⟩⟩ : Quantity Q32).unit = ⟨0, 1⟩ ∧
+    |rne32 ((⟨⟨1 / 2 ^ 170⟩, ⟨0, 1⟩⟩ : Quantity Q32).value.val * 1000000000)| < 2 ^ 63 := by
+  refine ⟨rfl, ?_⟩
+  have : rne32 ((⟨⟨1 / 2 ^ 170⟩, ⟨0, 1⟩⟩ : Quantity Q32).value.val * 1000000000)
+      = 477 / 713623846352979940529142984724747568191373312 := by decide +kernel   -- the subnormal `477 · 2^-149`
+  rw [this]; norm_num
+/-- … and on an ordinary one: `2.5 s ↦ 2_500_000_000 ns` -/
+example : Time.tryOfQuantity true (⟨⟨5 / 2⟩, ⟨0, 1⟩⟩ : Quantity Q32) = some 2500000000 := by decide +kernel
+
+/-- The concrete rounding does NOT meet the unrestricted contract `RoundingSpec` of `C18Rounding.lean` (its `rel` fails below
+the normal range: `2^-150` rounds to `0`), which is why the side conditions had to be proved rather than assumed. -/
+theorem rne32_not_RoundingSpec : ¬ RoundingSpec rne32 (1 / 2 ^ 24) := by
+  intro h
+  have h1 := h.rel (1 / 2 ^ 150)
+  have h2 : rne32 (1 / 2 ^ 150) = 0 := by decide +kernel
+  rw [h2] at h1
+  norm_num at h1
 
 end Rrtk.Thm.C18
